@@ -8,6 +8,14 @@ lookup and `get_fptr`/`find_module`.
 -/
 namespace IgVerif
 
+inductive LookupKind where
+  | typeName | typeScopedName | typeTrueName | manifestName | elementName | elementScopedName
+deriving DecidableEq, Repr
+
+def LookupKind.bit : LookupKind → Nat
+  | .typeName => 1 | .typeScopedName => 2 | .typeTrueName => 4
+  | .manifestName => 8 | .elementName => 16 | .elementScopedName => 32
+
 inductive DbSource where
   | none                 -- no database_filename
   | missing              -- file cannot be found / opened
@@ -36,7 +44,8 @@ structure St where
   byHash : List (Bytes × ModDef) := []
   requests : List ModDef := []
   errorFlag : Bool := false
-  fresh : Nat := 0
+  /-- the set of lookup tables whose `_lookups_fresh` bit is set (the bits are distinct powers of two: obligation `c20_lookup_bits`) -/
+  fresh : List LookupKind := []
   typesByName : SMap := []
   typesByScopedName : SMap := []
   typesByTrueName : SMap := []
@@ -45,44 +54,65 @@ structure St where
   elementsByScopedName : SMap := []
 deriving Repr, Inhabited
 
-/-- `request_module(def)`; returns the (possibly renumbered) def too -/
-def St.requestModule (s : St) (d : ModDef) : St :=
+/-- first part of `request_module(def)`: give the module its own index range -/
+def St.rmAssign (s : St) (d : ModDef) : St × ModDef :=
   let num := d.next - d.first
-  let (s, d) := if num > 0 then
-      let d' := { d with first := s.db.nextIndex, next := s.db.nextIndex + num }
-      ({ s with db := { s.db with nextIndex := s.db.nextIndex + num }, modules := s.modules ++ [d'] }, d')
-    else (s, d)
-  let s := if d.uniq.length > 0 && d.hasLib then
-      { s with byHash := (d.hash, d) :: s.byHash.filter (fun p => p.1 != d.hash) } else s
+  if num > 0 then
+    let d' := { d with first := s.db.nextIndex, next := s.db.nextIndex + num }
+    ({ s with db := { s.db with nextIndex := s.db.nextIndex + num }, modules := s.modules ++ [d'] }, d')
+  else (s, d)
+
+def St.rmHash (s : St) (d : ModDef) : St :=
+  if d.uniq.length > 0 && d.hasLib then
+    { s with byHash := (d.hash, d) :: s.byHash.filter (fun p => p.1 != d.hash) } else s
+
+def St.rmRequest (s : St) (d : ModDef) : St :=
   match d.src with
   | .none => s
   | _ => { s with requests := s.requests ++ [d] }
 
-/-- one iteration of the loop in `load_latest` -/
-def St.loadOne (c : Cfg) (s : St) (d : ModDef) : St :=
+/-- `request_module(def)` -/
+def St.requestModule (s : St) (d : ModDef) : St :=
+  ((s.rmAssign d).1.rmHash (s.rmAssign d).2).rmRequest (s.rmAssign d).2
+
+inductive LoadOutcome where
+  | skip                               -- no database file requested
+  | error                              -- reported through the error flag, nothing merged
+  | merged (db : Db) (idMismatch : Bool)
+deriving Repr
+
+/-- what one iteration of the loop in `load_latest` decides, as a function of the
+current maps and the module definition -/
+def loadOutcome (c : Cfg) (db : Db) (d : ModDef) : LoadOutcome :=
   match d.src with
-  | .none => s
-  | .missing => { s with errorFlag := true }
+  | .none => .skip
+  | .missing => .error
   | .bytes b =>
     match decHeader b with
-    | .error _ => { s with errorFlag := true }
+    | .error _ => .error
     | .ok ((id, maj, min), r) =>
-      let s := if d.fileId != 0 && id != d.fileId then { s with errorFlag := true } else s
-      if maj != curMajor || min > (curMinor : Int) then { s with errorFlag := true }
+      if maj != curMajor || min > (curMinor : Int) then .error
       else match decBody c.sch min.toNat id r with
-        | .error _ => { s with errorFlag := true }
+        | .error _ => .error
         | .ok (f, _) =>
           match Db.readNew c.sch c.fc f with
-          | none => { s with errorFlag := true }   -- (the C++ would dereference a null function)
+          | none => .error   -- (the C++ would dereference a null function pointer here)
           | some temp =>
+            let idBad := d.fileId != 0 && id != d.fileId
             if d.first == 0 && d.next == 0 then
-              let (temp', _) := temp.remapIndices c.sch c.rc s.db.nextIndex
-              let db := Db.mergeFrom c.sch c.fc c.rc { s.db with nextIndex := temp'.nextIndex } temp'
-              { s with db := db, fresh := 0 }
+              let (temp', _) := temp.remapIndices c.sch c.rc db.nextIndex
+              .merged (Db.mergeFrom c.sch c.fc c.rc { db with nextIndex := temp'.nextIndex } temp') idBad
             else
               let (temp', _) := temp.remapIndices c.sch c.rc d.first
-              if temp'.nextIndex != d.next then { s with errorFlag := true }
-              else { s with db := Db.mergeFrom c.sch c.fc c.rc s.db temp', fresh := 0 }
+              if temp'.nextIndex != d.next then .error
+              else .merged (Db.mergeFrom c.sch c.fc c.rc db temp') idBad
+
+/-- one iteration of the loop in `load_latest`; a merge resets every fresh bit -/
+def St.loadOne (c : Cfg) (s : St) (d : ModDef) : St :=
+  match loadOutcome c s.db d with
+  | .skip => s
+  | .error => { s with errorFlag := true }
+  | .merged db idBad => { s with db := db, fresh := [], errorFlag := s.errorFlag || idBad }
 
 /-- `check_latest()` -/
 def St.checkLatest (c : Cfg) (s : St) : St :=
@@ -90,14 +120,6 @@ def St.checkLatest (c : Cfg) (s : St) : St :=
   else
     let reqs := s.requests
     reqs.foldl (St.loadOne c) { s with requests := [] }
-
-inductive LookupKind where
-  | typeName | typeScopedName | typeTrueName | manifestName | elementName | elementScopedName
-deriving DecidableEq, Repr
-
-def LookupKind.bit : LookupKind → Nat
-  | .typeName => 1 | .typeScopedName => 2 | .typeTrueName => 4
-  | .manifestName => 8 | .elementName => 16 | .elementScopedName => 32
 
 def freshen (spec : List Field) (m : IMap (List Val)) (member : String) : SMap :=
   m.foldl (fun (acc : SMap) p => acc.set (getStr spec p.2 member) p.1) []
@@ -107,18 +129,30 @@ def St.cache (s : St) : LookupKind → SMap
   | .typeTrueName => s.typesByTrueName | .manifestName => s.manifestsByName
   | .elementName => s.elementsByName | .elementScopedName => s.elementsByScopedName
 
-def St.rebuild (c : Cfg) (s : St) : LookupKind → St
-  | .typeName => { s with typesByName := freshen c.sch.type s.db.types "_name" }
-  | .typeScopedName => { s with typesByScopedName := freshen c.sch.type s.db.types "_scoped_name" }
-  | .typeTrueName => { s with typesByTrueName := freshen c.sch.type s.db.types "_true_name" }
-  | .manifestName => { s with manifestsByName := freshen c.sch.manifest s.db.manifests "_name" }
-  | .elementName => { s with elementsByName := freshen c.sch.element s.db.elements "_name" }
-  | .elementScopedName => { s with elementsByScopedName := freshen c.sch.element s.db.elements "_scoped_name" }
+/-- what `freshen_*()` computes from the current maps -/
+def St.freshMap (c : Cfg) (s : St) : LookupKind → SMap
+  | .typeName => freshen c.sch.type s.db.types "_name"
+  | .typeScopedName => freshen c.sch.type s.db.types "_scoped_name"
+  | .typeTrueName => freshen c.sch.type s.db.types "_true_name"
+  | .manifestName => freshen c.sch.manifest s.db.manifests "_name"
+  | .elementName => freshen c.sch.element s.db.elements "_name"
+  | .elementScopedName => freshen c.sch.element s.db.elements "_scoped_name"
+
+def St.setCache (s : St) (k : LookupKind) (m : SMap) : St :=
+  match k with
+  | .typeName => { s with typesByName := m }
+  | .typeScopedName => { s with typesByScopedName := m }
+  | .typeTrueName => { s with typesByTrueName := m }
+  | .manifestName => { s with manifestsByName := m }
+  | .elementName => { s with elementsByName := m }
+  | .elementScopedName => { s with elementsByScopedName := m }
+
+def St.rebuild (c : Cfg) (s : St) (k : LookupKind) : St := s.setCache k (s.freshMap c k)
 
 /-- `lookup_*_by_*name(name)` -/
 def St.lookup (c : Cfg) (s : St) (k : LookupKind) (name : Bytes) : St × Int :=
   let s := s.checkLatest c
-  let s := if s.fresh &&& k.bit == 0 then { (s.rebuild c k) with fresh := s.fresh ||| k.bit } else s
+  let s := if !s.fresh.contains k then { (s.rebuild c k) with fresh := k :: s.fresh } else s
   (s, ((s.cache k).find name).getD 0)
 
 /-- guarded positional accessor: `if (n >= 0 && n < (int)v.size()) return v[n]; return neutral;` -/
